@@ -24,8 +24,8 @@ RULE = ('(i) real fragment streams: everything C08 generates (1-3 chained source
         'implied fragment after an explicit one; distinct by stream')
 ASSUMPTIONS = ['R3 decoder harness/ref_sourcemap.py and R4 codec harness/ref_vlq.py, validated on hand-worked examples '
                'at the start of each run',
-               'whether real fragments name the right file is C08\'s question; fragments whose effective source is '
-               'undefined because of the listed finding F-C08-1 are not judged on the source field']
+               'whether real fragments name the right file is C08\'s question; a stream whose first positioned fragment '
+               'names no source (none is produced since ab060f0) is not judged on the source field']
 
 INVALID = 'about:invalid'
 
@@ -284,7 +284,7 @@ def run_shard(shard):
             fr = [tuple(f) for _, f in frags]
             wd = _source_well_defined(fr)
             if not wd:
-                acc.excluded['source_not_judged_F-C08-1'] += 1
+                acc.excluded['first_positioned_fragment_names_no_source'] += 1
             res = check_stream(acc, opens, case, fr, normalize, judge_source=wd)
             acc.case((tuple(texts), printer_name, wc, normalize), nontrivial(fr, res),
                      {'sources': texts, 'printer': printer_name, 'normalize': normalize})
